@@ -357,6 +357,15 @@ class Exec:
             for k in list(d):
                 if name in d[k]:
                     d[k] = d[k] - {name}
+        if e is not None and e[0] == "cond" and lname(e[2]) and lname(e[3]):
+            a_, b_ = lname(e[2]), lname(e[3])
+            hi_a, hi_b = st.hi.get(a_, frozenset()) | {a_}, st.hi.get(b_, frozenset()) | {b_}
+            lo_a, lo_b = st.lo.get(a_, frozenset()) | {a_}, st.lo.get(b_, frozenset()) | {b_}
+            t_ = e[1]
+            is_min = t_[0] == "bin" and ((t_[1] in ("<", "<=") and lname(t_[2]) == a_ and lname(t_[3]) == b_) or (t_[1] in (">", ">=") and lname(t_[2]) == b_ and lname(t_[3]) == a_))
+            is_max = t_[0] == "bin" and ((t_[1] in (">", ">=") and lname(t_[2]) == a_ and lname(t_[3]) == b_) or (t_[1] in ("<", "<=") and lname(t_[2]) == b_ and lname(t_[3]) == a_))
+            st.hi[name] = (hi_a | hi_b) if is_min else (hi_a & hi_b)
+            st.lo[name] = (lo_a | lo_b) if is_max else (lo_a & lo_b)
         if src:
             st.lo[name] = st.lo.get(src, frozenset()) | {src} | {a for (a, b) in self.leq if b == src}
             st.hi[name] = st.hi.get(src, frozenset()) | {src} | {b for (a, b) in self.leq if a == src}
@@ -585,3 +594,16 @@ class Exec:
             res["fall"] = falls + exits
             return res
         return {"fall": states, "brk": [], "cont": [], "ret": []}
+
+
+def upper_closure(st: State, name: str) -> frozenset:
+    """all names known (transitively) to be >= name"""
+    seen = set(st.hi.get(name, ()))
+    todo = list(seen)
+    while todo:
+        x = todo.pop()
+        for y in st.hi.get(x, ()):
+            if y not in seen:
+                seen.add(y)
+                todo.append(y)
+    return frozenset(seen)
